@@ -287,6 +287,11 @@ async def episode(loop, script, rnd) -> dict:
     out["hung"] = len(pending)
     out["calls"] = [t.result() for t in tasks if t in done]
     await asyncio.sleep(1.0)
+    if script.get("read_passive"):
+        # what the zone reports with no further I/O (every packet of the controller's present version was overheard, twice)
+        await asyncio.sleep(max(0.0, script["read_passive"] - loop.time()))
+        out["passive_view"] = {z: zone[z].schedule for z in ALL}
+        out["passive_want"] = {z: ctl.history[z][-1][2] for z in ALL}
     out["lock_after"] = tcs.zone_lock_idx
     # a follow-up transfer on another zone proceeds normally
     other = next(z for z in ZONES if z != script["calls"][0]["zone"])
@@ -337,6 +342,23 @@ def gen_script(rnd: random.Random) -> dict:
         t0 = rnd.uniform(0.0, 0.01)
         sib = [(round(t0 + 0.007 * k, 4), b, 1 + (k % 2 if sizes[b] > 1 else 0), rnd.choice((gwrig.GWY_ID, "18:999999"))) for k in range(rnd.choice((12, 40)))]
         return {"sizes": sizes, "calls": calls, "lose": {}, "bump_after": {}, "overheard": [], "sibling": sib}
+    if rnd.random() < 0.1:
+        # directed: the zone is fetched; its schedule changes on the controller; another gateway fetches the new version and the
+        # controller's replies to it are overheard - every fragment, twice over, any order.  What the zone then reports is the
+        # new version (C17: the packets received are the schedule)
+        z = rnd.choice(ALL)
+        sizes[z] = rnd.choice((1, 2, 4))
+        nfr = {1: 2, 2: 3, 4: 5}[sizes[z]] + 3
+        calls = [{"zone": z, "at": 0.0, "force_io": True, "timeout": 15}]
+        sib, t = [], 5.0
+        for _pass in range(2):
+            order = list(range(1, nfr + 1))
+            if rnd.random() < 0.5:
+                rnd.shuffle(order)
+            for num in order:
+                t += rnd.choice((0.05, 0.2))
+                sib.append((round(t, 3), z, num, "18:999999"))
+        return {"sizes": sizes, "calls": calls, "lose": {}, "bump_after": {}, "overheard": [], "bump_at": [(3.0, z)], "sibling": sib, "read_passive": round(t + 1.0, 3)}
     if rnd.random() < 0.2:
         # directed: the zone is fetched, its schedule changes on the controller, it is fetched again - and copies of fragments of
         # the *old* schedule (delayed duplicates, replies to another gateway) arrive at moments spread over the re-fetch
@@ -451,6 +473,14 @@ def score(chk: Check, script, o, rep) -> None:
                 if superseded_at is not None and c["label"] >= superseded_at:
                     chk.violation("c18.label_newer_than_data", f"zone {c['zone']}: the schedule returned was replaced on the controller at change counter {superseded_at}, "
                                   f"yet it is labelled with counter {c['label']}: a later forced fetch will take the stale copy for current", rep)
+    if "passive_view" in o:
+        z = script["calls"][0]["zone"]
+        chk.count("passive.overheard_new_version.cases")
+        first = next((c for c in o["all_calls"] if c["zone"] == z), None) if "all_calls" in o else None
+        if first is not None and first["res"][0] == "ok" and o["passive_view"][z] != o["passive_want"][z]:
+            what = "still the version fetched earlier" if o["passive_view"][z] == first["res"][1] else ("none" if o["passive_view"][z] is None else "neither version")
+            chk.violation("c18.passive.overheard_new_version_not_taken", f"zone {z}: fetched, then changed on the controller, then every packet of the new version "
+                          f"was overheard twice over - the zone reports {what}", rep)
     fs = o.get("followup_same")
     if fs and fs[0] == "ok" and fs[1] != o["history"][o["followup_same_zone"]][-1][2]:
         chk.violation("c18.forced_refetch_stale", f"get_schedule(force_io=True) on zone {o['followup_same_zone']} after the transfers does not return the controller's present schedule", rep)
